@@ -6,6 +6,7 @@ import (
 	"fmt"
 	"os"
 	"path/filepath"
+	"regexp"
 	"sort"
 	"strings"
 	"sync"
@@ -131,8 +132,11 @@ func c03RenderUnits(h *c05Hier, tags []string) []byte {
 	return []byte(sb.String())
 }
 
-var c03OddValues = []interface{}{0, -1, 1, 1.5, 1e9, int64(9223372036854775807), 1e30, -1e30, "", "x", "*", "[", "(", "\\", "\x00", "\n", "ab", "§§", nil, true, false,
-	[]interface{}{}, map[string]interface{}{}, []interface{}{1, "a"}, strings.Repeat("long", 500)}
+// c03OddValues returns fresh values on every call: the containers among them end up inside the mutated document and are mutated further.
+func c03OddValues() []interface{} {
+	return []interface{}{0, -1, 1, 1.5, 1e9, int64(9223372036854775807), 1e30, -1e30, "", "x", "*", "[", "(", "\\", "\x00", "\n", "ab", "§§", nil, true, false,
+		[]interface{}{}, map[string]interface{}{}, []interface{}{1, "a"}, strings.Repeat("long", 500)}
+}
 
 var c03BoundaryInts = []interface{}{int64(9223372036854775807), int64(9223372036854775806), int64(9223372036854775800), int64(4611686018427387904), int64(4294967296),
 	int64(2147483648), int64(2147483647), int64(65536), int64(4096), 0, 1, 2, 3, -1, int64(-9223372036854775808)}
@@ -230,7 +234,8 @@ func mutateJSON(r *core.Rand, v interface{}, tmplNames []string) (interface{}, s
 		}
 		return v, "none"
 	case op <= 4:
-		set(c03OddValues[r.Intn(len(c03OddValues))])
+		odd := c03OddValues()
+		set(odd[r.Intn(len(odd))])
 		return v, "odd-value"
 	case op == 5:
 		if m, ok := s.parent.(map[string]interface{}); ok {
@@ -327,6 +332,10 @@ var c03Adversarial = []string{
 	`{"parser_settings":{"version":"omni.2.1","file_format_type":"json"},"transform_declarations":{"FINAL_OUTPUT":{"template":"FINAL_OUTPUT"}}}`,
 	`{"parser_settings":{"version":"omni.2.1","file_format_type":"xml"},"transform_declarations":{"FINAL_OUTPUT":{"object":{"x":{"template":"a"}}},"a":{"array":[{"template":"b"}]},"b":{"custom_func":{"name":"concat","args":[{"template":"a"}]}}}}`,
 	`{"parser_settings":{"version":"omni.2.1","file_format_type":"json"},"transform_declarations":{"FINAL_OUTPUT":{"xpath_dynamic":{"template":"a"},"object":{}},"a":{"xpath_dynamic":{"template":"a"}}}}`,
+	// nulls where a declaration is expected, out of the JSON schema's sight (under xpath_dynamic), also inside template bodies (deep copied first)
+	`{"parser_settings":{"version":"omni.2.1","file_format_type":"json"},"transform_declarations":{"FINAL_OUTPUT":{"object":{"a":{"template":"t"}}},"t":{"xpath_dynamic":{"custom_func":{"name":"concat","args":[null,{"const":"x"}]}}}}}`,
+	`{"parser_settings":{"version":"omni.2.1","file_format_type":"json"},"transform_declarations":{"FINAL_OUTPUT":{"object":{"a":{"template":"t"},"b":{"xpath_dynamic":{"array":[null]}}}},"t":{"xpath_dynamic":{"object":{"k":null}}}}}`,
+	`{"parser_settings":{"version":"omni.2.1","file_format_type":"json"},"transform_declarations":{"FINAL_OUTPUT":{"xpath_dynamic":{"custom_func":{"name":"concat","args":[{"xpath_dynamic":{"custom_func":{"name":"upper","args":[null]}}}]}},"object":{}}}}`,
 	// huge numbers
 	`{"parser_settings":{"version":"omni.2.1","file_format_type":"fixedlength2"},"file_declaration":{"envelopes":[{"rows":9223372036854775807,"columns":[{"name":"a","start_pos":9223372036854775807,"length":9223372036854775807}]}]},"transform_declarations":{"FINAL_OUTPUT":{"object":{"a":{"xpath":"a"}}}}}`,
 	`{"parser_settings":{"version":"omni.2.1","file_format_type":"fixedlength2"},"file_declaration":{"envelopes":[{"columns":[{"name":"a","start_pos":2,"length":9223372036854775807,"line_index":9223372036854775807}]}]},"transform_declarations":{"FINAL_OUTPUT":{"object":{"a":{"xpath":"a"}}}}}`,
@@ -403,9 +412,10 @@ func c03Inputs(c *core.Ctx, r *core.Rand, seed c03Seed, n int) [][]byte {
 		case k == 7:
 			// deep nesting
 			depth := 10000
-			if c.Tier == core.Thorough && r.Chance(1, 10) && !bytes.Contains(seed.schema, []byte("//")) {
-				// (a target xpath with a descendant step is re-evaluated over the whole open tree at every element start: quadratic in the
-				// depth by design, minutes at this depth - that is slow, not a hang, and a wall clock must not decide it)
+			if c.Tier == core.Thorough && r.Chance(1, 10) && c03CheapTarget(seed.schema) {
+				// (the target xpath is re-evaluated against the whole open tree at every element start; with a descendant step, a predicate
+				// or a comparison - whose operands are string-values of ever deeper subtrees - that is quadratic in the depth by design,
+				// minutes at this depth: slow, not a hang, and a wall clock must not decide it. Only plain child paths get this depth.)
 				depth = 100000
 			}
 			switch r.Intn(3) {
@@ -424,6 +434,26 @@ func c03Inputs(c *core.Ctx, r *core.Rand, seed c03Seed, n int) [][]byte {
 		}
 	}
 	return out
+}
+
+var c03PlainPath = regexp.MustCompile(`^[A-Za-z0-9_./*:-]*$`)
+
+// c03CheapTarget: the schema's FINAL_OUTPUT xpath (if any) is a plain path of child steps.
+func c03CheapTarget(schema []byte) bool {
+	var h struct {
+		TD map[string]json.RawMessage `json:"transform_declarations"`
+	}
+	if json.Unmarshal(schema, &h) != nil {
+		return false
+	}
+	var fo struct {
+		XPath        *string         `json:"xpath"`
+		XPathDynamic json.RawMessage `json:"xpath_dynamic"`
+	}
+	if json.Unmarshal(h.TD["FINAL_OUTPUT"], &fo) != nil || fo.XPathDynamic != nil {
+		return false
+	}
+	return fo.XPath == nil || (c03PlainPath.MatchString(*fo.XPath) && !strings.Contains(*fo.XPath, "//"))
 }
 
 func formatOf(schema []byte) string {
